@@ -39,9 +39,11 @@ NOTES2 = {
     "C15": ("C15", "MISSED at first: a re-entrant read on the error path of a read of a key whose blob is missing, with a writer really queued in state.write(); forced schedules (the writer blocks inside the lock) for readers parked at the blob open, with intact and with missing blobs, were added - caught"),
     "C20": ("C20", "MISSED at first: the log only becomes malformed after a failed open of the next segment file; C20 now also judges the fault histories (well-formedness after every failed call) - caught"),
     "C01": ("C01", "caught as delivered"), "C06": ("C06", "caught as delivered"), "C07": ("C07", "caught as delivered"),
-    "C11": ("C11", "caught as delivered"), "C12": ("C12", "caught as delivered"), "C13": ("C13", "caught as delivered"),
-    "C16": ("C16", "caught as delivered"), "C17": ("C17", "caught as delivered"), "C18": ("C18", "caught as delivered"),
-    "C19": ("C19", "caught as delivered"),
+    "C11": ("C11", "caught as delivered"), "C12": ("C12", "caught as delivered"), "C16": ("C16", "caught as delivered"),
+    "C13": ("C13", "MISSED at first: two transactions of one key open at once, the second abandoned - the first one's finish() then FAILS; a write-side call that returns an error in a run without injected faults was not a tagged failure; tag OPFAIL added to the concurrent trace spec - caught"),
+    "C17": ("C17", "MISSED at first as a tool error: the huge allocation aborts the harness process; the vector harness now records the input it is about to execute and the driver reports a process abort of the code under test as a violation - caught"),
+    "C18": ("C18", "MISSED at first (probabilistic: needs two consecutive commits whose hashes collide under a wrong shard id, about 1 pair in 1700): 20 000 (quick) / 200 000 (thorough) consecutive commits of small distinct contents were added - caught"),
+    "C19": ("C19", "MISSED at first: the admitted open with the other pre-creation choice was observed but not USED; the gate scenarios now run operations that need new cas/ sub-directories on the admitted handle and judge them with the ordinary per-operation conjuncts - caught"),
 }
 import sys
 ROUND = sys.argv[1] if len(sys.argv) > 1 else "1"
